@@ -2,6 +2,7 @@
 // Trees are created ON DISK in a temporary directory; discovery is the real
 // utils_file.RecursiveGetExecutablePaths, the --config round is the real
 // hook.Manager.Init running generated bash scripts that log their own invocation.
+// names.go holds the generators for the file-name rule (names around every excluded extension).
 package c20
 
 import (
@@ -492,6 +493,7 @@ func Render(in Input, obs *Observation, crash string) core.Case {
 	}) {
 		c.Tags = append(c.Tags, "has:exec-file-with-excluded-ext")
 	}
+	c.Tags = append(c.Tags, nameTags(nodes)...)
 	if hasName(nodes, func(n Node) bool { return !n.Dir && n.Mode&0o111 != 0 && n.Mode&0o100 == 0 }) {
 		c.Tags = append(c.Tags, "has:group/other-x-only")
 	}
@@ -731,6 +733,11 @@ func withInit(in Input, beh ...Beh) Input  { in.Init = true; in.Beh = beh; retur
 
 // Corpus: witnesses and past failures; runs first.
 func Corpus() []Input {
+	// the file-name rule (seeded change C20-6): names that end in the LETTERS of an excluded extension, first
+	return append(namesCorpus(), corpusTrees()...)
+}
+
+func corpusTrees() []Input {
 	return []Input{
 		// the hooks directory's own path occurs again below it (seeded change C20-5): the whole absolute path
 		// nested under mod/ next to a file named like that path with the chain cut out; the stock layout
@@ -830,13 +837,16 @@ func Gen(r *core.Rng, tier string) ([]core.In[Input], bool) {
 	g := &gen{r: r}
 	nTrees, nInit, nNested := 150, 30, 60
 	sysRoots, sysKs, sysReps := []string{"hooks"}, chainLens, 2
+	nNames, seps, exLen := 120, sepQuick, 4
 	switch tier {
 	case "thorough":
 		nTrees, nInit, nNested = 5000, 600, 3000
 		sysRoots, sysKs, sysReps = []string{"hooks", "h", "lib", ".h"}, []int{1, 2, 3, 4, 5, 6, 99}, 3
+		nNames, seps, exLen = 8000, sepThorough(), 5
 	case "search":
 		nTrees, nInit, nNested = 1500, 150, 800
 		sysReps = 3
+		nNames = 1500
 	}
 	for _, c := range nestedSystematic(sysRoots, sysKs, sysReps) {
 		ins = append(ins, core.In[Input]{Input: c, Stream: "nested-systematic"})
@@ -850,6 +860,27 @@ func Gen(r *core.Rng, tier string) ([]core.In[Input], bool) {
 	// after the older streams, so that those draw the same cases from the seed as before
 	for i := 0; i < nNested; i++ {
 		ins = append(ins, core.In[Input]{Input: g.nestedRandom(), Stream: "nested-random"})
+	}
+	// the file-name rule (after the older streams, see above): systematic families around every excluded
+	// extension, every name over a small alphabet, random names
+	for _, c := range namesSystematic(seps, namesPerDir) {
+		ins = append(ins, core.In[Input]{Input: c, Stream: "names-systematic"})
+	}
+	for _, c := range flatCases(exhaustiveNames(".mdx", exLen), namesPerDir, true) {
+		ins = append(ins, core.In[Input]{Input: c, Stream: "names-exhaustive"})
+	}
+	if tier == "thorough" {
+		for _, c := range flatCases(exhaustiveNames(".txa", exLen), namesPerDir, true) {
+			ins = append(ins, core.In[Input]{Input: c, Stream: "names-exhaustive"})
+		}
+		for _, alphabet := range []string{".jsonx", ".yamlx"} {
+			for _, c := range flatCases(exhaustiveNames(alphabet, exLen), namesPerDir, false) {
+				ins = append(ins, core.In[Input]{Input: c, Stream: "names-exhaustive"})
+			}
+		}
+	}
+	for i := 0; i < nNames; i++ {
+		ins = append(ins, core.In[Input]{Input: g.namesRandom(), Stream: "names-random"})
 	}
 	if tier == "thorough" || tier == "search" {
 		maxNodes := 4
@@ -865,8 +896,19 @@ func Gen(r *core.Rng, tier string) ([]core.In[Input], bool) {
 	return ins, false
 }
 
+// files per directory in the flat name cases (the shrinker removes one entry at a time: keep it short)
+const namesPerDir = 10
+
 func Extra() map[string]any {
 	return map[string]any{
+		"names_scope": "names-systematic: for each of yaml, json, md, txt the family of names around the extension (bare letters, with the dot, prefixes, suffixes, case variants, near misses, one character out of " + strings.Join(sepQuick, "") + " (thorough: every printable ASCII character but / ' \\ and three non-ASCII letters) in place of / in front of / behind the dot and behind the extension, double extensions, look-alike words) in flat directories of " + fmt.Sprint(namesPerDir) + " files 0755 + two controls, all through Init; placement cases: the names below sub, lib, hidden directories and directories that carry the extension in their own name, 4 scenarios; names-exhaustive: every name of length <= 4 (thorough: 5) over the alphabet .mdx (thorough also .txa with Init, .jsonx and .yamlx discovery only); names-random: 4-9 names over the alphabet '" + randomAlphabet + "' (60% built as <0-3 chars><one char or the dot><letters of an extension, possibly upper/mixed case or one letter short>[<1-2 chars>]), a sub-directory in 40%, Init in 2 of 3",
+		"family_sizes": func() map[string]int {
+			m := map[string]int{}
+			for _, l := range extLetters {
+				m[l] = len(nameFamily(l, sepQuick))
+			}
+			return m
+		}(),
 		"nested_scope":     "nested-systematic: [mod/](<chain>/){1..reps}{b.sh,start.sh} + a file x per level + siblings named like the paths with the chain cut out; <chain> = the last k elements of the hooks directory's own absolute path, k in 1,2,3,whole (thorough: 1..6,whole; roots hooks,h,lib,.h; reps <= 3), 4 scenarios each (discovery, Init ok, Init with the innermost hook invalid, Init with the glued sibling failing); nested-random: 1-3 chains at random places of a random forest",
 		"exhaustive_scope": "thorough: every forest with <= 4 nodes (files 0644/0755, directories) over the names " + strings.Join(exNames, ",") + " with sibling names distinct, under the roots hooks and lib",
 		"name_pool":        namePool,
@@ -877,6 +919,6 @@ func Extra() map[string]any {
 
 var Driver = core.Driver[Input, Observation]{
 	Spec: core.Spec{Property: "C20", Imports: []string{"C20_Model", "C20_Spec", "C20_Corr"}, Corr: "C20_Corr", Triggers: nil, ShrinkKey: "nodes",
-		Rule: "directory trees created on disk (depth <= 4, names from a pool with lib, hidden names, excluded and near-excluded extensions, collisions across directories, 13 modes, hooks directory itself named lib/hidden in ~40%); trees in which the hooks directory's own path (last element, trailing elements, whole absolute path) occurs again below it, once or several times, with siblings named like a cut path (streams nested-systematic, nested-random); by-name index looked up after every Init run (GetHook for every loaded name and for the relative path of every discovered file); streams: corpus, random (RecursiveGetExecutablePaths only), init (real hook.Manager.Init on bash scripts that log their --config invocation; 65% of them with misbehaving files), exhaustive (thorough); non-trivial = at least one hook discovered and at least one file left out; distinct = distinct input term"},
-	Gen: Gen, Run: Run, Render: Render, PerShard: 700, Workers: 8, CaseTimout: 30 * time.Second, Extra: Extra,
+		Rule: "directory trees created on disk (depth <= 4, names from a pool with lib, hidden names, excluded and near-excluded extensions, collisions across directories, 13 modes, hooks directory itself named lib/hidden in ~40%); trees in which the hooks directory's own path (last element, trailing elements, whole absolute path) occurs again below it, once or several times, with siblings named like a cut path (streams nested-systematic, nested-random); by-name index looked up after every Init run (GetHook for every loaded name and for the relative path of every discovered file); file names around every excluded extension, character by character (streams names-systematic, names-exhaustive, names-random; every file of every tree judged one by one by C20_Spec.P_files); streams: corpus, random (RecursiveGetExecutablePaths only), init (real hook.Manager.Init on bash scripts that log their --config invocation; 65% of them with misbehaving files), exhaustive (thorough); non-trivial = at least one hook discovered and at least one file left out; distinct = distinct input term"},
+	Gen: Gen, Run: Run, Render: Render, PerShard: 30, Workers: 8, CaseTimout: 30 * time.Second, Extra: Extra,
 }
